@@ -43,12 +43,16 @@ class Frame:
 class Loop:
     """Loop contract: invariant, extra havoc targets, variant."""
 
-    def __init__(self, inv, modifies=(), decreases=None, name=None, lemmas=None):
+    def __init__(self, inv, modifies=(), decreases=None, name=None, lemmas=None, at_end=None, no_variant=False,
+                 havoc_as=None):
+        self.havoc_as = havoc_as or {}   # local name -> factory(it) for object-valued loop-carried locals
         self.inv = inv
         self.modifies = list(modifies)
         self.decreases = decreases
         self.name = name
         self.lemmas = lemmas   # instances of separately proved lemmas, assumed before inv:step
+        self.at_end = at_end   # ghost code executed at the end of an iteration (before inv:step), e.g. ghost counters
+        self.no_variant = no_variant   # loops that need not terminate (a user program's while loop)
 
 
 class LoopState:
@@ -502,16 +506,27 @@ class Interp:
             else:
                 self.unsupported("contracted for-loop over " + type(it).__name__, node)
         entry = dict(frame.locals)
+        # ghost state at loop entry stays available to the invariant (it is not havocked)
+        self.ghost["entry:" + lname] = {k_: v_ for k_, v_ in self.ghost.items() if not k_.startswith("entry:")}
         st0 = LoopState(self, frame, k=lo, entry=entry)
         self.check(f"inv:init:{lname}", _conj(spec.inv(st0)), None)
         # havoc
         assigned = _assigned_names(node.body) | (_target_names(node.target) if is_for else set())
         mode = self.path.choose(2)
         for name in sorted(assigned):
-            if name in frame.locals:
-                frame.locals[name] = self.havoc_like(frame.locals[name], name)
+            if name in spec.havoc_as:
+                frame.locals[name] = spec.havoc_as[name](self)
+            elif name in frame.locals:
+                if isinstance(frame.locals[name], Obj):
+                    # an object-valued loop-carried local without a declared abstraction: unknown afterwards
+                    frame.locals[name] = Obj(self.world.havoc_class(), {}, label="havoc:" + name)
+                else:
+                    frame.locals[name] = self.havoc_like(frame.locals[name], name)
         for pathexpr in spec.modifies:
-            self.havoc_path(pathexpr, frame)
+            if pathexpr.startswith("ghost:"):
+                self.havoc_ghost(pathexpr[6:])
+            else:
+                self.havoc_path(pathexpr, frame)
         k = None
         if is_for:
             k = self.fresh_int("k")
@@ -548,11 +563,13 @@ class Interp:
                 st1 = LoopState(self, frame, k=mk_int(k.z + step), entry=entry)
             else:
                 st1 = LoopState(self, frame, k=None, entry=entry)
+            if spec.at_end is not None:
+                spec.at_end(st1)
             if spec.lemmas is not None:
                 for fact in spec.lemmas(st1):
                     self.path.assume(fact, check=False)
             self.check(f"inv:step:{lname}", _conj(spec.inv(st1)), None)
-            if not is_for:
+            if not is_for and not spec.no_variant:
                 if spec.decreases is None:
                     self.path.fail(f"{self.target}#variant:{lname}", "no variant given")
                 else:
@@ -594,6 +611,17 @@ class Interp:
             return None
         # heap references: the reference itself is kept (objects are havocked through spec.modifies)
         return v
+
+    def havoc_ghost(self, name):
+        cur = self.ghost.get(name)
+        if isinstance(cur, z3.ExprRef) and z3.is_seq(cur):
+            self.ghost[name] = z3.Const(self.fresh("g_" + name), cur.sort())
+        elif isinstance(cur, z3.ExprRef):
+            self.ghost[name] = z3.Const(self.fresh("g_" + name), cur.sort())
+        elif isinstance(cur, int):
+            self.ghost[name] = z3.Int(self.fresh("g_" + name))
+        else:
+            self.unsupported("havoc of ghost " + name)
 
     def havoc_path(self, pathexpr, frame):
         pathexpr, _, newkind = pathexpr.partition(":")
@@ -1220,6 +1248,11 @@ class Interp:
             return False
         if isinstance(a, bool) and isinstance(b, bool):
             return a == b
+        h = self.world.hooks.get("elem_identical")
+        if h is not None and (isinstance(a, SElem) or isinstance(b, SElem)):
+            r = h(self, a, b)
+            if r is not None:
+                return r
         if isinstance(a, SElem) and isinstance(b, SElem):
             # ids of opaque elements denote values modulo the language's equality: the same object is an equal
             # value, but equal values need not be the same object
